@@ -444,6 +444,7 @@ func fxStructStores(a *ssa.Alloc) (fields []fxFieldStore, whole []*ssa.Store) {
 	seen := map[*ssa.Alloc]bool{}
 	var collect func(x *ssa.Alloc, prefix string)
 	var fieldRefs func(addr ssa.Value, prefix string)
+	var helperStores func(ptr ssa.Value, depth int)
 	fieldRefs = func(addr ssa.Value, prefix string) {
 		refs := addr.Referrers()
 		if refs == nil {
@@ -495,6 +496,35 @@ func fxStructStores(a *ssa.Alloc) (fields []fxFieldStore, whole []*ssa.Store) {
 			}
 		}
 		fieldRefs(x, prefix)
+		// the struct's address handed to a static in-repo helper (depth ≤ 2):
+		// the helper's stores through that parameter initialise it too
+		if prefix == "" {
+			helperStores(x, 0)
+		}
+	}
+	helperStores = func(ptr ssa.Value, depth int) {
+		refs := ptr.Referrers()
+		if refs == nil || depth >= 2 {
+			return
+		}
+		for _, r := range *refs {
+			call, ok := r.(*ssa.Call)
+			if !ok {
+				continue
+			}
+			callee := ir.Callee(call.Call)
+			if callee == nil || callee.Blocks == nil || callee.Pkg == nil || callee.Pkg.Pkg.Path() != ir.MastPath {
+				continue
+			}
+			for i, arg := range call.Call.Args {
+				if arg != ptr || i >= len(callee.Params) {
+					continue
+				}
+				p := callee.Params[i]
+				fieldRefs(p, "")
+				helperStores(p, depth+1)
+			}
+		}
 	}
 	collect(a, "")
 	return
